@@ -297,6 +297,11 @@ def shard(ctx):
                     fl.append(f)
             doc = dict(doc)
             doc["n"] = fl + [rng.randint(-2 ** 63, 2 ** 63 - 1)]
+        if isinstance(doc, dict) and t % 4 == 2:
+            # an empty-string key with a map / list below it: the reported paths of its descendants carry an empty segment (`/e//x`)
+            doc = dict(doc)
+            doc["e"] = {"": {"x": rng.choice(SCALARS[:12]), "": rng.choice(SCALARS[:12]), "l": [rng.choice(SCALARS[:12]), {"": rng.choice(SCALARS[:12])}]}, "x": rng.choice(SCALARS[:12])}
+            ctx.res.counts["documents_with_empty_string_keys"] += 1
         for sname in ser.STYLES:
             check_doc(ctx, rng, doc, sname)
 
